@@ -1,6 +1,10 @@
 """Per-profile tier budgets: number of seeded runs and wall-clock cap (budget exhaustion is not an error)."""
 
 TIERS = {
+    "configs": {
+        "quick": {"variants": 6, "runs_per_profile": 48, "budget_s": 85, "min_budget": 100},
+        "thorough": {"variants": 64, "runs_per_profile": 160, "budget_s": 560, "min_budget": 150},
+    },
     "getter": {
         "quick": {"runs": 640, "budget_s": 70, "min_budget": 150},
         "thorough": {"runs": 20000, "budget_s": 540, "min_budget": 300},
